@@ -164,6 +164,12 @@ macro_rules! with_int {
             Int::NzU64($x) => $body,
             Int::NzIsize($x) => $body,
             Int::NzUsize($x) => $body,
+            Int::I128($x) => $body,
+            Int::U128($x) => $body,
+            Int::NzI128($x) => $body,
+            Int::NzU128($x) => $body,
+            Int::F32(b) => { let $x = f32::from_bits(b.0); $body }
+            Int::F64(b) => { let $x = f64::from_bits(b.0); $body }
         }
     };
 }
